@@ -442,6 +442,9 @@ func TestCheck(t *testing.T) {
 	for _, c := range configWiringCases() {
 		if r.Mine(idx) {
 			k, d := executeConfigWiring(c)
+			for try := 0; try < 3 && k == "inconclusive" && strings.Contains(d, "in use"); try++ {
+				k, d = executeConfigWiring(c) // another process took the port between probing and binding
+			}
 			if k == "inconclusive" {
 				r.Inconclusive(c.String() + " " + c.Wiring + ": " + d)
 				r.Eval(1)
@@ -454,6 +457,9 @@ func TestCheck(t *testing.T) {
 	for _, c := range programWiringCases() {
 		if r.Mine(idx) {
 			k, d := executeProgramWiring(c)
+			for try := 0; try < 3 && k == "inconclusive" && strings.Contains(d, "in use"); try++ {
+				k, d = executeProgramWiring(c)
+			}
 			if k == "inconclusive" {
 				r.Inconclusive(c.String() + " " + c.Wiring + ": " + d)
 				r.Eval(1)
